@@ -1987,7 +1987,7 @@ def srs_frf(
         shk = frf * Q
     else:
         shk = np.empty((n, nfrf), float)
-        pvrb = ks < 0.005  # ks/ms < .005 ... since ms == 1
+        pvrb = ks == 0.0  # only a 0 Hz oscillator is rigid-body
         pvel = np.logical_not(pvrb)
         rb = np.any(pvrb)
         el = np.any(pvel)
